@@ -41,6 +41,12 @@ type Spec struct {
 	DefsOuterFirst bool     // root only: definitions are visited outermost first (a referring definition before the one it refers to)
 	DefsPreOrder   bool     // root only: definitions are visited in declaration (pre-)order: a referring definition before the ones it refers to, after earlier siblings
 	Hostile        string   // a malformed piece injected at this node: null-property, null-items-in-allOf, null-anyOf, null-definition, empty-enum, array-without-items, unknown-type, missing-definition
+	RefFile        string   // with Ref: the definition lives in this other file (a cross-file reference "<file>#/$defs/<name>")
+	built          *builder
+	refStr         *absint.Str
+	DefSameAs      string // with Ref: the definition has the same NAME as the (earlier built) definition with this label (possibly in another file)
+	DefLabel       string // label under which this definition's name can be reused
+	RefRootOf      string // a reference to the root of another file: {"$ref": "<file>"}
 	// filled by Build
 	Atoms   map[string]*absint.Atom
 	DefName *absint.Atom
@@ -70,28 +76,36 @@ func (s *Spec) Has(kw string) bool {
 	return false
 }
 
-func (s *Spec) Clone() *Spec {
+func (s *Spec) Clone() *Spec { return s.clone(map[*Spec]*Spec{}) }
+
+// clone keeps sharing: a Spec that occurs twice in the tree (one definition, two referrers) stays one Spec.
+func (s *Spec) clone(memo map[*Spec]*Spec) *Spec {
 	if s == nil {
 		return nil
 	}
+	if c, ok := memo[s]; ok {
+		return c
+	}
 	c := *s
+	memo[s] = &c
 	c.Atoms = nil
+	c.built = nil
 	c.Kw = append([]string{}, s.Kw...)
-	c.Items = s.Items.Clone()
+	c.Items = s.Items.clone(memo)
 	c.Props = nil
 	for _, p := range s.Props {
 		np := *p
-		np.Spec = p.Spec.Clone()
+		np.Spec = p.Spec.clone(memo)
 		np.Name = nil
 		c.Props = append(c.Props, &np)
 	}
 	c.AnyOf = nil
 	for _, a := range s.AnyOf {
-		c.AnyOf = append(c.AnyOf, a.Clone())
+		c.AnyOf = append(c.AnyOf, a.clone(memo))
 	}
 	c.AllOf = nil
 	for _, a := range s.AllOf {
-		c.AllOf = append(c.AllOf, a.Clone())
+		c.AllOf = append(c.AllOf, a.clone(memo))
 	}
 	c.ReqOnly = append([]string{}, s.ReqOnly...)
 	return &c
@@ -185,6 +199,10 @@ func (s *Spec) String() string {
 
 // builder accumulates definitions while building.
 type builder struct {
+	defNames map[string]*absint.Atom
+	curFile  string
+	fileKeys map[string][]gen.V
+	fileVals map[string][]gen.V
 	preOrder bool
 	exts     map[string]*absint.Atom
 	names    map[string]*absint.Atom
@@ -206,6 +224,21 @@ func (b *builder) atom(s *Spec, kind, kw string, nonEmpty bool) *absint.Atom {
 	return a
 }
 
+func (b *builder) defName(s *Spec, label string) *absint.Atom {
+	if b.defNames == nil {
+		b.defNames = map[string]*absint.Atom{}
+	}
+	if s.DefSameAs != "" && b.defNames[s.DefSameAs] != nil {
+		return b.defNames[s.DefSameAs]
+	}
+	a := b.g.M.NewAtom("RawStr", "name of definition for "+label)
+	a.NonEmpty = true
+	if s.DefLabel != "" {
+		b.defNames[s.DefLabel] = a
+	}
+	return a
+}
+
 func (b *builder) typeList(s *Spec) gen.V {
 	k := s.Kind
 	if k == "any" {
@@ -222,11 +255,14 @@ func (b *builder) typeList(s *Spec) gen.V {
 
 func (b *builder) build(s *Spec, label string) gen.V {
 	g := b.g
+	if s.Ref != "" && s.built == b && s.refStr != nil {
+		// the same definition referenced again: only another referring node
+		return g.Node(map[string]gen.V{"Ref": *s.refStr})
+	}
 	f := map[string]gen.V{}
 	slot := -1
 	if s.Ref != "" && b.preOrder {
-		s.DefName = g.M.NewAtom("RawStr", "name of definition for "+label)
-		s.DefName.NonEmpty = true
+		s.DefName = b.defName(s, label)
 		b.defKeys = append(b.defKeys, absint.HoleStr(s.DefName))
 		b.defVals = append(b.defVals, nil)
 		slot = len(b.defVals) - 1
@@ -459,15 +495,28 @@ func (b *builder) build(s *Spec, label string) gen.V {
 		b.defKeys = append(b.defKeys, absint.HoleStr(b.atom(s, "RawStr", "name of the null definition", true)))
 		b.defVals = append(b.defVals, absint.Ptr{})
 	}
+	if s.RefRootOf != "" {
+		return g.Node(map[string]gen.V{"Ref": absint.Lit(s.RefRootOf)})
+	}
 	node := g.Node(f)
 	s.node = node
 	if s.Ref != "" {
 		// move the node into a definition and return a referring node
+		if s.RefFile != "" {
+			s.DefName = b.defName(s, label)
+			if b.fileKeys == nil {
+				b.fileKeys, b.fileVals = map[string][]gen.V{}, map[string][]gen.V{}
+			}
+			b.fileKeys[s.RefFile] = append(b.fileKeys[s.RefFile], absint.HoleStr(s.DefName))
+			b.fileVals[s.RefFile] = append(b.fileVals[s.RefFile], node)
+			rs := absint.Cat(absint.Lit(s.RefFile+"#/$defs/"), absint.HoleStr(s.DefName))
+			s.built, s.refStr = b, &rs
+			return g.Node(map[string]gen.V{"Ref": rs})
+		}
 		if slot >= 0 {
 			b.defVals[slot] = node
 		} else {
-			s.DefName = g.M.NewAtom("RawStr", "name of definition for "+label)
-			s.DefName.NonEmpty = true
+			s.DefName = b.defName(s, label)
 			b.defKeys = append(b.defKeys, absint.HoleStr(s.DefName))
 			b.defVals = append(b.defVals, node)
 		}
@@ -475,7 +524,9 @@ func (b *builder) build(s *Spec, label string) gen.V {
 		if s.Ref == "definitions" {
 			prefix = "#/definitions/"
 		}
-		return g.Node(map[string]gen.V{"Ref": absint.Cat(absint.Lit(prefix), absint.HoleStr(s.DefName))})
+		rs := absint.Cat(absint.Lit(prefix), absint.HoleStr(s.DefName))
+		s.built, s.refStr = b, &rs
+		return g.Node(map[string]gen.V{"Ref": rs})
 	}
 	return node
 }
@@ -499,4 +550,36 @@ func Build(g *gen.G, root *Spec) gen.V {
 		title = absint.Lit(root.ConcreteTitle)
 	}
 	return g.Schema(rootNode, absint.Str{}, title, defs)
+}
+
+// FileSpec is one schema file of a multi-file family member.
+type FileSpec struct {
+	Name string // file name given to DoFile / used in $ref
+	ID   string // $id
+	Root *Spec
+}
+
+// BuildFiles turns a set of file specs (with cross-file references) into abstract schemas by file name.
+func BuildFiles(g *gen.G, files []*FileSpec) map[string]gen.V {
+	b := &builder{g: g, fileKeys: map[string][]gen.V{}, fileVals: map[string][]gen.V{}}
+	roots := map[string]gen.V{}
+	own := map[string][2][]gen.V{}
+	for _, f := range files {
+		b.curFile = f.Name
+		b.defKeys, b.defVals = nil, nil
+		b.preOrder = f.Root.DefsPreOrder
+		roots[f.Name] = b.build(f.Root, "Root")
+		own[f.Name] = [2][]gen.V{b.defKeys, b.defVals}
+	}
+	out := map[string]gen.V{}
+	for _, f := range files {
+		keys := append(append([]gen.V{}, own[f.Name][0]...), b.fileKeys[f.Name]...)
+		vals := append(append([]gen.V{}, own[f.Name][1]...), b.fileVals[f.Name]...)
+		var defs gen.V
+		if len(keys) > 0 {
+			defs = g.Map(keys, vals)
+		}
+		out[f.Name] = g.Schema(roots[f.Name], absint.Lit(f.ID), absint.Str{}, defs)
+	}
+	return out
 }
